@@ -190,18 +190,18 @@ int main(int argc, char **argv)
 				row("merge_qos", a, 0, q, 0, 1, 0, r);
 			}
 		}
-		/* adjust_owned */
-		for (int ow = 0; ow <= W; ow++) for (int barrier = 0; barrier <= 2; barrier++) {
+		/* adjust_owned: reserves the pending barrier unless the (lock-holding) drainer already did */
+		for (int pb = 0; pb <= 1; pb++) for (int ow = 0; ow <= W; ow++) for (int barrier = 0; barrier <= 2; barrier++) {
 			static struct dispatch_continuation_s dcb, dcn;
 			dcb.dc_flags = DC_FLAG_BARRIER; dcn.dc_flags = 0;
 			struct dispatch_object_s *next = barrier == 2 ? NULL : barrier ? (void *)&dcb : (void *)&dcn;
-			struct dispatch_lane_s *dq = mk((abs_t){0}, 0);
+			abs_t a0; memset(&a0, 0, sizeof(a0)); a0.pb = pb; a0.owner = 1; a0.used = W;
+			struct dispatch_lane_s *dq = mk(a0, 0);
 			uint64_t in = (uint64_t)ow * DISPATCH_QUEUE_WIDTH_INTERVAL;
 			uint64_t o = _dispatch_queue_adjust_owned(dq, in, next);
-			/* report the reservation as "res": owned shrank by PENDING_BARRIER + (W-1) units */
 			int res = (in - o) == (DISPATCH_QUEUE_PENDING_BARRIER + (uint64_t)(W - 1) * DISPATCH_QUEUE_WIDTH_INTERVAL) ? 1 :
 					(in == o ? 0 : -1);
-			fprintf(out, "{\"f\":\"adjust_owned\",\"w\":%d,\"a1\":%d,\"a2\":%d,\"ret\":%d}\n", W, ow, barrier, res);
+			fprintf(out, "{\"f\":\"adjust_owned\",\"w\":%d,\"a1\":%d,\"a2\":%d,\"pb\":%s,\"ret\":%d}\n", W, ow, barrier, pb ? "true" : "false", res);
 			rows++;
 		}
 	}
